@@ -2,8 +2,9 @@
    satisfies the boolean wf_state together with its backing file:
      inplace_same_sector_count      a call that is not refused has the same number of sectors
      inplace_accepted_iff           under wf: returns <-> same number of sectors (zero-length cases below)
-     inplace_refused_writes_nothing under wf the call either raises before the first write or returns
-                                    (the _refuted form, without 0 <= length, is in InPlaceExamplesProofs.v)
+     inplace_refused_writes_nothing(_run) under wf the call either raises before the first write or returns, for
+                                    every integer length and every fp (for the code BEFORE /repo 0411073 this
+                                    was false: inplace_refused_writes_nothing_refuted in InPlaceExamplesProofs.v)
      inplace_frame                  bytes outside the data sectors, the length fields of the linked records
                                     and the volume modification dates keep their values
      inplace_content_data           the data sectors afterwards: new bytes, old bytes, ONE zero byte
@@ -60,6 +61,22 @@ Proof.
   destruct (ip_lrec_step m ext _ n l Hok Hold Hn Hceil) as [[_ S]|(b & b' & _ & S & _)]; rewrite S; discriminate.
 Qed.
 
+Lemma ip_modify_run_wf st m n fp now ext : wf_state st m = true -> st_child st = ChFile ext ->
+  st_initialized st = true -> mode_ok (st_mode st) = true -> length now = 17%nat -> 0 <= n ->
+  ceiling_div (st_ino_len st) 2048 = ceiling_div n 2048 ->
+  exists wv, vd_writes 2048 now (vds st) = (wv, true) /\
+    modify_run st n fp now = Done (wv ++ data_writes 2048 ext n fp ++ flat_map (lrec_write 2048 n) (st_linked st)).
+Proof.
+  intros Hwf Hc Hi Hm Hn Hn0 Hceil.
+  destruct (ip_wf_inv st m ext Hwf Hc) as (Hlbs & _ & _ & Hvd & Henh & _).
+  destruct (ip_vd_writes_ok m 2048 now (vds st) Hvd Hn) as (wv & Ew & _).
+  exists wv. split; [exact Ew|].
+  unfold modify_run, modify_run_gen. rewrite Hi, Hm, Hc. cbn [negb andb].
+  replace (n <? 0) with false by lia. unfold child_len. rewrite Hc, Hlbs, Hceil, Z.eqb_refl.
+  cbn [negb]. rewrite (ip_vds_after_wf st n Henh), Ew. cbn [negb].
+  rewrite (ip_relink_wf st m ext n Hwf Hc Hn0 Hceil). reflexivity.
+Qed.
+
 Lemma ip_modify_wf st m d now ext : wf_state st m = true -> st_child st = ChFile ext ->
   st_initialized st = true -> mode_ok (st_mode st) = true -> length now = 17%nat ->
   ceiling_div (st_ino_len st) 2048 = ceiling_div (zlen d) 2048 ->
@@ -67,24 +84,27 @@ Lemma ip_modify_wf st m d now ext : wf_state st m = true -> st_child st = ChFile
     modify st d now = Done (wv ++ data_writes 2048 ext (zlen d) d ++ flat_map (lrec_write 2048 (zlen d)) (st_linked st)).
 Proof.
   intros Hwf Hc Hi Hm Hn Hceil.
-  destruct (ip_wf_inv st m ext Hwf Hc) as (Hlbs & _ & _ & Hvd & Henh & _).
-  destruct (ip_vd_writes_ok m 2048 now (vds st) Hvd Hn) as (wv & Ew & _).
-  exists wv. split; [exact Ew|].
-  unfold modify, modify_run. rewrite Hi, Hm, Hc. cbn [negb]. unfold child_len. rewrite Hc, Hlbs, Hceil, Z.eqb_refl.
-  cbn [negb]. rewrite (ip_vds_after_wf st (zlen d) Henh), Ew. cbn [negb].
-  rewrite (ip_relink_wf st m ext (zlen d) Hwf Hc (zlen_nonneg d) Hceil). reflexivity.
+  apply (ip_modify_run_wf st m (zlen d) d now ext Hwf Hc Hi Hm Hn (zlen_nonneg d) Hceil).
 Qed.
 
 (* ---- accepted iff same sector count; never "raised after writing" ---- *)
-Theorem inplace_same_sector_count st length fp now :
-  modify_run st length fp now <> Refused ->
-  ceiling_div (child_len st) (st_lbs st) = ceiling_div length (st_lbs st).
+Theorem inplace_same_sector_count_gen chk st length fp now :
+  modify_run_gen chk st length fp now <> Refused ->
+  ceiling_div (child_len st) (st_lbs st) = ceiling_div length (st_lbs st) /\ (chk = true -> 0 <= length).
 Proof.
-  unfold modify_run. destruct (negb (st_initialized st)); [congruence|].
+  unfold modify_run_gen. destruct (negb (st_initialized st)); [congruence|].
   destruct (negb (mode_ok (st_mode st))); [congruence|].
+  destruct (chk && (length <? 0)) eqn:En; [congruence|].
   destruct (st_child st) eqn:Ec; try congruence;
     destruct (ceiling_div (child_len st) (st_lbs st) =? ceiling_div length (st_lbs st)) eqn:E; cbn [negb];
-    try congruence; intros _; lia.
+    try congruence; intros _; (split; [lia|intros ->; cbn [andb] in En; lia]).
+Qed.
+
+Theorem inplace_same_sector_count st length fp now :
+  modify_run st length fp now <> Refused ->
+  ceiling_div (child_len st) (st_lbs st) = ceiling_div length (st_lbs st) /\ 0 <= length.
+Proof.
+  intros H. destruct (inplace_same_sector_count_gen true st length fp now H) as [H1 H2]. split; [exact H1|auto].
 Qed.
 
 Theorem inplace_accepted_iff st m d now ext : wf_state st m = true -> st_child st = ChFile ext ->
@@ -94,7 +114,7 @@ Proof.
   intros Hwf Hc Hi Hm Hn. split.
   - intros [ws H]. destruct (ip_wf_inv st m ext Hwf Hc) as (Hlbs & _).
     assert (Hne : modify_run st (zlen d) d now <> Refused) by (unfold modify in H; rewrite H; discriminate).
-    pose proof (inplace_same_sector_count st (zlen d) d now Hne) as E.
+    destruct (inplace_same_sector_count st (zlen d) d now Hne) as [E _].
     unfold child_len in E. rewrite Hc, Hlbs in E. exact E.
   - intros Hceil. destruct (ip_modify_wf st m d now ext Hwf Hc Hi Hm Hn Hceil) as (wv & _ & E).
     eexists. exact E.
@@ -116,32 +136,47 @@ Corollary inplace_to_empty_refused st m now ext : wf_state st m = true -> st_chi
   length now = 17%nat -> 0 < st_ino_len st -> modify st [] now = Refused.
 Proof.
   intros Hwf Hc Hn H0. destruct (ip_wf_inv st m ext Hwf Hc) as (Hlbs & _).
-  unfold modify, modify_run. destruct (negb (st_initialized st)); [reflexivity|].
-  destruct (negb (mode_ok (st_mode st))); [reflexivity|]. rewrite Hc. unfold child_len. rewrite Hc, Hlbs.
-  change (zlen []) with 0. replace (ceiling_div (st_ino_len st) 2048 =? ceiling_div 0 2048) with false
+  unfold modify, modify_run, modify_run_gen. destruct (negb (st_initialized st)); [reflexivity|].
+  destruct (negb (mode_ok (st_mode st))); [reflexivity|]. change (zlen []) with 0. cbn [andb Z.ltb Z.compare].
+  rewrite Hc. unfold child_len. rewrite Hc, Hlbs. replace (ceiling_div (st_ino_len st) 2048 =? ceiling_div 0 2048) with false
     by (unfold ceiling_div; lia). reflexivity.
+Qed.
+
+(* for EVERY integer length and EVERY fp content (also one that holds fewer bytes than length) *)
+Theorem inplace_refused_writes_nothing_run st m n fp now : wf_state st m = true -> length now = 17%nat ->
+  modify_run st n fp now = Refused \/ exists ws, modify_run st n fp now = Done ws.
+Proof.
+  intros Hwf Hn.
+  destruct (st_initialized st) eqn:Hi; [|left; unfold modify_run, modify_run_gen; rewrite Hi; reflexivity].
+  destruct (mode_ok (st_mode st)) eqn:Hm; [|left; unfold modify_run, modify_run_gen; rewrite Hi, Hm; reflexivity].
+  destruct (n <? 0) eqn:Hneg; [left; unfold modify_run, modify_run_gen; rewrite Hi, Hm, Hneg; reflexivity|].
+  destruct (st_child st) as [|x|x|ext] eqn:Hc;
+    try (left; unfold modify_run, modify_run_gen; rewrite Hi, Hm, Hneg, Hc; cbn [negb andb];
+         try destruct (negb (_ =? _)); reflexivity).
+  destruct (Z.eq_dec (ceiling_div (st_ino_len st) 2048) (ceiling_div n 2048)) as [E|E].
+  - right. destruct (ip_modify_run_wf st m n fp now ext Hwf Hc Hi Hm Hn ltac:(lia) E) as (wv & _ & H).
+    eexists. exact H.
+  - left. destruct (ip_wf_inv st m ext Hwf Hc) as (Hlbs & _).
+    unfold modify_run, modify_run_gen. rewrite Hi, Hm, Hneg, Hc. cbn [negb andb]. unfold child_len. rewrite Hc, Hlbs.
+    replace (ceiling_div (st_ino_len st) 2048 =? ceiling_div n 2048) with false by lia. reflexivity.
 Qed.
 
 Theorem inplace_refused_writes_nothing st m d now : wf_state st m = true -> length now = 17%nat ->
   modify st d now = Refused \/ exists ws, modify st d now = Done ws.
+Proof. intros Hwf Hn. apply (inplace_refused_writes_nothing_run st m (zlen d) d now Hwf Hn). Qed.
+
+(* a negative length is refused whatever the state *)
+Theorem inplace_negative_refused st n fp now : n < 0 -> modify_run st n fp now = Refused.
 Proof.
-  intros Hwf Hn. destruct (st_initialized st) eqn:Hi; [|left; unfold modify, modify_run; rewrite Hi; reflexivity].
-  destruct (mode_ok (st_mode st)) eqn:Hm; [|left; unfold modify, modify_run; rewrite Hi, Hm; reflexivity].
-  destruct (st_child st) as [|x|x|ext] eqn:Hc;
-    try (left; unfold modify, modify_run; rewrite Hi, Hm, Hc; cbn [negb];
-         try destruct (negb (_ =? _)); reflexivity).
-  destruct (Z.eq_dec (ceiling_div (st_ino_len st) 2048) (ceiling_div (zlen d) 2048)) as [E|E].
-  - right. apply (inplace_accepted_iff st m d now ext Hwf Hc Hi Hm Hn). exact E.
-  - left. destruct (ip_wf_inv st m ext Hwf Hc) as (Hlbs & _).
-    unfold modify, modify_run. rewrite Hi, Hm, Hc. cbn [negb]. unfold child_len. rewrite Hc, Hlbs.
-    replace (ceiling_div (st_ino_len st) 2048 =? ceiling_div (zlen d) 2048) with false by lia. reflexivity.
+  intros H. unfold modify_run, modify_run_gen. destruct (negb (st_initialized st)); [reflexivity|].
+  destruct (negb (mode_ok (st_mode st))); [reflexivity|]. replace (n <? 0) with true by lia. reflexivity.
 Qed.
 
 (* a file object opened 'rb' (or any mode that does not start with r+, w, a, rb+) is refused *)
 Theorem inplace_read_only_refused st d now s : st_mode st = Some s -> mode_ok (Some s) = false ->
   modify st d now = Refused.
 Proof.
-  intros H1 H2. unfold modify, modify_run. destruct (negb (st_initialized st)); [reflexivity|].
+  intros H1 H2. unfold modify, modify_run, modify_run_gen. destruct (negb (st_initialized st)); [reflexivity|].
   rewrite H1, H2. reflexivity.
 Qed.
 Example ip_mode_rb : mode_ok (Some [114; 98]) = false /\ mode_ok (Some [114; 98; 43]) = true /\ mode_ok None = true.
@@ -163,16 +198,16 @@ Lemma ip_acc_ceil : ceiling_div (st_ino_len st) 2048 = ceiling_div n 2048.
 Proof.
   destruct (ip_wf_inv st m ext Hwf Hchild) as (Hlbs & _).
   assert (Hne : modify_run st (zlen d) d now <> Refused) by (unfold modify in Hdone; rewrite Hdone; discriminate).
-  pose proof (inplace_same_sector_count st (zlen d) d now Hne) as E.
+  destruct (inplace_same_sector_count st (zlen d) d now Hne) as [E _].
   unfold child_len in E. rewrite Hchild, Hlbs in E. exact E.
 Qed.
 
 Lemma ip_acc_shape : exists wv, vd_writes 2048 now (vds st) = (wv, true) /\ ws = wv ++ wd ++ wl.
 Proof.
   assert (Hi : st_initialized st = true).
-  { destruct (st_initialized st) eqn:E; [reflexivity|]. unfold modify, modify_run in Hdone. rewrite E in Hdone. discriminate. }
+  { destruct (st_initialized st) eqn:E; [reflexivity|]. unfold modify, modify_run, modify_run_gen in Hdone. rewrite E in Hdone. discriminate. }
   assert (Hm : mode_ok (st_mode st) = true).
-  { destruct (mode_ok (st_mode st)) eqn:E; [reflexivity|]. unfold modify, modify_run in Hdone. rewrite Hi, E in Hdone. discriminate. }
+  { destruct (mode_ok (st_mode st)) eqn:E; [reflexivity|]. unfold modify, modify_run, modify_run_gen in Hdone. rewrite Hi, E in Hdone. discriminate. }
   destruct (ip_modify_wf st m d now ext Hwf Hchild Hi Hm Hnow ip_acc_ceil) as (wv & Ew & E).
   exists wv. split; [exact Ew|]. rewrite E in Hdone. injection Hdone as <-. reflexivity.
 Qed.
@@ -319,8 +354,9 @@ Theorem inplace_frame st m d now ws : wf_state st m = true -> length now = 17%na
   modify st d now = Done ws -> forall a, outside a (allowed st) = true -> apply_writes ws m a = m a.
 Proof.
   intros Hwf Hn Hd a Ha. destruct (st_child st) as [|x|x|ext] eqn:Hc;
-    try (unfold modify, modify_run in Hd; rewrite Hc in Hd;
+    try (unfold modify, modify_run, modify_run_gen in Hd; rewrite Hc in Hd;
          destruct (negb (st_initialized st)); [discriminate|]; destruct (negb (mode_ok (st_mode st))); [discriminate|];
+         destruct (true && (zlen d <? 0)); [discriminate|];
          try destruct (negb (_ =? _)); discriminate).
   apply (inplace_frame_acc st m d now ext ws Hwf Hn Hc Hd a Ha).
 Qed.
@@ -356,7 +392,8 @@ Proof. intros Hwf Hn Hc Hd. apply (inplace_content_record_acc st m d now ext ws 
 Print Assumptions inplace_same_sector_count.
 Print Assumptions inplace_accepted_iff.
 Print Assumptions inplace_zero_length.
-Print Assumptions inplace_refused_writes_nothing.
+Print Assumptions inplace_refused_writes_nothing_run.
+Print Assumptions inplace_negative_refused.
 Print Assumptions inplace_frame.
 Print Assumptions inplace_content_data.
 Print Assumptions inplace_content_record.
